@@ -90,12 +90,12 @@ theorem lookupS_mem {s : List Char} {l : List (String × String)} {v : String} (
 
 /-- if w contains no blank, its characters are the input's characters from offset cur-1 on, none of them whitespace -/
 def RawOK (sql : Sql) (cur : Nat) (w : List Char) : Prop :=
-  (∀ c ∈ w, c ≠ ' ') → ∀ k, k < w.length → ∃ ch, sql[cur - 1 + k]? = some ch ∧ ch.space = false
+  (∀ c ∈ w, c ≠ ' ') → ∀ k, k < w.length → ∃ ch, sql[cur - 1 + k]? = some ch ∧ ch.space = false ∧ w[k]? = some ch.c
 
 theorem kwLoop_raw {cfg : Cfg} {sql : Sql} (hW : WF sql) {cur : Nat} :
     ∀ (f : Nat) (chars pfx : List Char) (char : Char) (skip ps sg : Bool) (size : Nat) (word : Option (List Char)),
       ((∀ c ∈ chars, c ≠ ' ') → chars.length = size + 1 ∧
-          ∀ k, k < chars.length → ∃ ch, sql[cur - 1 + k]? = some ch ∧ ch.space = false) →
+          ∀ k, k < chars.length → ∃ ch, sql[cur - 1 + k]? = some ch ∧ ch.space = false ∧ chars[k]? = some ch.c) →
       (ps = true → ' ' ∈ chars) → (∀ w, word = some w → RawOK sql cur w) → 1 ≤ cur →
       ∀ w, (kwLoop cfg sql cur f chars pfx char skip ps sg size word).word = some w → RawOK sql cur w := by
   intro f
@@ -145,12 +145,17 @@ theorem kwLoop_raw {cfg : Cfg} {sql : Sql} (hW : WF sql) {cur : Nat} :
             intro k hk
             simp only [List.length_append, List.length_singleton] at hk
             by_cases hk2 : k < chars.length
-            · exact p2 k hk2
+            · obtain ⟨c1, g1, g2, g3⟩ := p2 k hk2
+              exact ⟨c1, g1, g2, by rw [List.getElem?_append_left hk2]; exact g3⟩
             · have : k = size + 1 := by omega
               subst this
               have e : cur - 1 + (size + 1) = cur + size := by omega
               rw [e]
-              exact ⟨ch, hc, hsp⟩
+              refine ⟨ch, hc, hsp, ?_⟩
+              have hl : chars.length ≤ size + 1 := by omega
+              rw [List.getElem?_append_right hl]
+              have : size + 1 - chars.length = 0 := by omega
+              rw [this]; simp [hsp]
           · intro hsp
             apply List.mem_append.2
             right
@@ -557,7 +562,7 @@ theorem word_jump_sk {sql : Sql} (hW : WF sql) {st s : St} {w : List Char} (hraw
   apply advance_sk h
   apply hasNL_of_forall
   intro j hj1 hj2
-  obtain ⟨ch, hg, hs⟩ := hraw hns (j - (st.current - 1)) (by omega)
+  obtain ⟨ch, hg, hs, _⟩ := hraw hns (j - (st.current - 1)) (by omega)
   have e : st.current - 1 + (j - (st.current - 1)) = j := by omega
   rw [e] at hg
   exact not_nl_of_not_space hW hg hs
@@ -682,7 +687,7 @@ theorem scanKeywords_sk {cfg : Cfg} (hC : Clean cfg) {sql : Sql} (hW : WF sql) {
     simp only [List.length_singleton] at hk
     have : k = 0 := by omega
     subst this
-    exact ⟨ch, by simpa using hget, hsp⟩
+    exact ⟨ch, by simpa using hget, hsp, rfl⟩
   · exact kwFallback_sk h
 
 theorem dispatch_sk {cfg : Cfg} (hC : Clean cfg) {sql : Sql} (hW : WF sql) {s st' : St} {ch : Ch}
